@@ -10,10 +10,12 @@ import (
 	"verif/internal/core"
 	"verif/internal/muxdiff"
 	"verif/internal/pattern"
+	"verif/internal/subs"
 )
 
 var checks = map[string]func(*core.Ctx){
 	"C06": muxdiff.Run,
+	"C09": subs.Run,
 	"C17": pattern.Run,
 }
 
